@@ -1,7 +1,9 @@
 """Fixed-form layouts of token-level statements (C14)."""
 from harness.gen import layout as L
 
-CONT_CHARS = "123456789&+$*.aX#"
+# column 6 of a continuation line: any character other than blank and zero, '!' included (a '!' in column 6 is
+# not a comment initiator)
+CONT_CHARS = "123456789&+$*.aX#!!!!ZcCq-/:;=,'\"%()<>?@_|~"
 CODE = ["x", "=", "y1", "+", "call", "foo", "(", ")", ",", "a%b", "1.0e0", "if", "then", "end", "do", "print",
         "*", "//", "integer", "n_2", ".and.", "100", "/", "-", "goto", "continue"]
 LITS = ["", "a", "abc", "it's", "c!d", "  two  ", "x ; y", "&", "end do", "C comment?", "* star", "!", "!!",
@@ -35,8 +37,15 @@ def between_lines(rng, knobs):
     out = []
     p = knobs.get("p_between", 0.2)
     while rng.random() < p:
-        if rng.random() < 0.45:
+        r = rng.random()
+        if r < 0.35:
             out.append(rng.choice("Cc*!") + rng.choice(COMMENT_LINES))
+        elif r < 0.45:
+            # a comment line whose '!' stands in columns 2-5
+            out.append(" " * rng.choice([1, 2, 3, 4]) + "!" + rng.choice(COMMENT_LINES))
+        elif r < 0.45 + knobs.get("p_region2", 0.03):
+            # the open finding: a comment line whose '!' stands in column 7 or beyond
+            out.append(" " * rng.choice([6, 6, 7, 10, 30, 71, 75]) + "!" + rng.choice(COMMENT_LINES))
         else:
             out.append(blank_line(rng))
     return out
@@ -114,6 +123,8 @@ def render_fixed(rng, label, pieces, knobs):
         else:
             lab = "     "
             c6 = rng.choice(CONT_CHARS)
+            if c6 == "!":
+                shapes.add("bang_in_column_6")
             pad = "" if (after_exact or exact) else (" " * rng.choice([0, 0, 1, 3]) if len(code) + 3 <= width else "")
         line = lab + c6 + pad + code
         if exact:
@@ -137,6 +148,8 @@ def render_fixed(rng, label, pieces, knobs):
             out.append(line)
         if not last:
             bl = between_lines(rng, knobs)
+            if any(b.strip().startswith("!") and len(b) - len(b.lstrip()) >= 6 for b in bl):
+                regions.add("indented_comment")
             if any(not b.strip() and len(b) >= 6 for b in bl):
                 shapes.add("wide_blank_before_continuation")
             if sum(1 for b in bl if not b.strip()) >= 2:
@@ -159,7 +172,7 @@ def gen_file(rng, knobs=None):
     for _ in range(rng.choice([1, 2, 3, 5])):
         while rng.random() < 0.25:
             lines.append(rng.choice(["C header", "c", "*  star", "! bang", "", "   ", "      ", " " * 7, " " * 40,
-                                     " " * 75]))
+                                     " " * 75, "  ! in column 3", "    !", "      ! in column 7", " " * 20 + "!! far"]))
         label, pieces = gen_statement(rng, knobs["p_label"])
         ls, pieces, rg, nc, sh = render_fixed(rng, label, pieces, knobs)
         lines += ls
